@@ -554,19 +554,37 @@ def check_for_dead_ends(match: ContentMatch, stream: TokenStream) -> None:
     i = 0
     while i < len(work):
         state = work[i]
-        dead = not state.valid_end
-        nodes = []
         for j in range(len(state.next)):
-            node = state.next[j].type
             next = state.next[j].next
-            nodes.append(node.name)
-            if dead and not (node.is_text or node.has_required_attrs()):
-                dead = False
             if next not in work:
                 work.append(next)
-        if dead:
+        i += 1
+    # the states from which a valid end can be reached through generatable nodes
+    # only (a state that merely *offers* a generatable node is not enough: in
+    # `(a a)* a img` every state does, yet no match can end without the `img`)
+    live = [state for state in work if state.valid_end]
+    changed = True
+    while changed:
+        changed = False
+        for state in work:
+            if state in live:
+                continue
+            for j in range(len(state.next)):
+                node = state.next[j].type
+                if state.next[j].next in live and not (
+                    node.is_text or node.has_required_attrs()
+                ):
+                    live.append(state)
+                    changed = True
+                    break
+    for state in work:
+        if state not in live:
+            nodes = [
+                state.next[j].type.name
+                for j in range(len(state.next))
+                if state.next[j].next in live
+            ] or [state.next[j].type.name for j in range(len(state.next))]
             stream.err(
                 f'Only non-generatable nodes ({", ".join(nodes)}) in a required '
                 "position (see https://prosemirror.net/docs/guide/#generatable)",
             )
-        i += 1
